@@ -83,3 +83,37 @@ Proof.
     destruct (Z.ltb_spec (Z.of_nat t) dmax) as [Hlt|Hge]; cbn [andb]; [|rewrite !andb_false_r; reflexivity].
     rewrite (Hz ltac:(lia)). rewrite Z.eqb_refl. rewrite andb_true_r. reflexivity.
 Qed.
+
+(* wcsnset_s: at most n elements are filled; the slack behind the terminator is counted from where the loop stopped *)
+Definition wnset_post (c : cfg) (w d dmax n v : Z) (m : mem) (r : Z) (m' : mem) : Prop :=
+  r = EOK /\ exists t, 0 <= t <= n /\
+    (forall i, 0 <= i < t -> load m w (d + i * w) <> 0) /\ (t < n -> load m w (d + t * w) = 0) /\
+    (forall i, 0 <= i < t -> load m' w (d + i * w) = v mod 256 ^ w) /\
+    forall a, ~ (d <= a < d + t * w) ->
+      m' a = if null_slack c && (t <? dmax) && (load m w (d + t * w) =? 0) && in_range (d + t * w) ((dmax - t) * w) a then 0 else m a.
+
+Theorem wcsnset_s_spec c d dmax value n m : wf_cfg c -> d <> 0 -> 1 <= dmax <= rmax_wstr c -> wc_signed value <= UNICODE_MAX -> 0 <= n <= dmax ->
+  wp (wcsnset_s c d dmax value n BOS_UNKNOWN) m (wnset_post c (wchar_w c) d dmax n (value mod 4294967296) m).
+Proof.
+  intros Hc Hd Hm Hv Hn. unfold wcsnset_s, chk_dest_wset.
+  assert (Hw : 0 < wchar_w c) by (destruct Hc as (_ & _ & _ & _ & _ & _ & [H|H] & _); lia).
+  replace (d =? 0) with false by (symmetry; apply Z.eqb_neq; lia).
+  replace (dmax =? 0) with false by (symmetry; apply Z.eqb_neq; lia).
+  replace (UNICODE_MAX <? wc_signed value) with false by (symmetry; apply Z.ltb_ge; lia).
+  rewrite Z.eqb_refl. replace (rmax_wstr c <? dmax) with false by (symmetry; apply Z.ltb_ge; lia).
+  replace (dmax <? n) with false by (symmetry; apply Z.ltb_ge; lia).
+  set (w := wchar_w c) in *.
+  apply wset_loop_wp; [exact Hw|]. intros t m1 Ht Hnz Hz Hval Hout.
+  assert (Htn : Z.of_nat t <= n) by lia.
+  replace ((d + Z.of_nat t * w - d) / w) with (Z.of_nat t) by (replace (d + Z.of_nat t * w - d) with (Z.of_nat t * w) by lia; rewrite Z.div_mul by lia; reflexivity).
+  apply wslack_if_nul_wp; [lia|]. intros m' Hm'. unfold wnset_post. split; [reflexivity|]. exists (Z.of_nat t).
+  split; [lia|]. split; [exact Hnz|]. split; [intros Hl; apply Hz; lia|].
+  assert (Hl1 : load m1 w (d + Z.of_nat t * w) = load m w (d + Z.of_nat t * w)) by (apply load_ext; intros x Hx; apply Hout; nia).
+  split.
+  - intros i Hi. rewrite <- (Hval i Hi). apply load_ext. intros x Hx. rewrite Hm'.
+    replace (in_range (d + Z.of_nat t * w) ((dmax - Z.of_nat t) * w) x) with false; [rewrite !andb_false_r; reflexivity|].
+    symmetry. apply in_range_false. nia.
+  - intros a Ha. rewrite Hm', Hl1. rewrite Hout by exact Ha.
+    replace (0 <? dmax - Z.of_nat t) with (Z.of_nat t <? dmax) by (destruct (Z.ltb_spec (Z.of_nat t) dmax), (Z.ltb_spec 0 (dmax - Z.of_nat t)); lia).
+    reflexivity.
+Qed.
